@@ -243,6 +243,10 @@ def summarise(P, name, ctx):
                     ok = a0[0] == 'un' and a0[1] == '*' and ir.top_nocast(a0[2])[0] == 'call' and \
                         ir.callee_name(ir.top_nocast(a0[2])) == 'Exception_Buffer' and \
                         ir.top_nocast(ir.top_nocast(a0[2])[2][0]) in rec
+                    if not ok and a0[0] == 'un' and a0[1] == '*':
+                        # the same slot spelled out: *record->buffers[record->depth - 1]
+                        t0 = ir.top_nocast(a0[2])
+                        ok = t0[0] == 'idx' and _is_rec_field(t0[1], rec, 'buffers') and _depth_expr(P, t0[2], rec) == -1
                     v = util.const_int(call[2][1], P.enums)
                     if not ok:
                         raise Undecided('longjmp target in %s is not *Exception_Buffer(record)' % name)
@@ -622,10 +626,14 @@ def check_functions(P, ctx, summ):
         not any(e[0] in ('depth', 'depth_set', 'active') for p in ps for e in p['effects'])
     ctx.check(ok, rule, 'exception_throw:jump-iff-nested', site(ft), 'jumps exactly when a try block is active (depth >= 1), else reports; depth/active untouched')
     # Exception_Buffer
-    fb = P.fn('Exception_Buffer')
-    g = P.cfg(fb)
-    rec = {('param', fb['params'][0][0], 0)}
-    rets = [n for n in g.live() if n['kind'] == 'ret']
+    fb = P.fn('Exception_Buffer', required=False)
+    if fb is None:
+        # no accessor any more: every longjmp names the slot itself (the path summaries accept only *record->buffers[record->depth - 1],
+        # and the jump-iff-nested obligations put each jump under depth >= 1)
+        ctx.proved(rule, 'Exception_Buffer:innermost', site(ft), 'every jump goes through buffers[depth-1] (spelled out at the longjmp sites), under a test that depth is at least 1')
+    g = P.cfg(fb) if fb is not None else None
+    rec = {('param', fb['params'][0][0], 0)} if fb is not None else set()
+    rets = [n for n in g.live() if n['kind'] == 'ret'] if fb is not None else []
     ok = len(rets) == 1
     if ok:
         r = ir.top_nocast(rets[0]['expr'])
@@ -633,7 +641,8 @@ def check_functions(P, ctx, summ):
         guards = [n for n in g.live() if n['kind'] == 'cond']
         ok = ok and len(guards) == 1 and ir.canon(guards[0]['expr']) == ir.canon(('bin', '==', ('arrow', ('param', fb['params'][0][0], 0), 'depth'), ('int', 0))) and \
             g.must_pass(rets[0]['id'], through_edges=[(guards[0]['id'], False)])
-    ctx.check(ok, rule, 'Exception_Buffer:innermost', site(fb), 'returns buffers[depth-1], guarded against depth 0')
+    if fb is not None:
+        ctx.check(ok, rule, 'Exception_Buffer:innermost', site(fb), 'returns buffers[depth-1], guarded against depth 0')
     # Exception_Error: diagnostic + failure status
     fr = P.fn('Exception_Error')
     g = P.cfg(fr)
